@@ -152,6 +152,11 @@ func init() {
 				return nil
 			case "empty":
 				return []byte{}
+			case "s1z":
+				return append([]byte("salt-s1"), 0)
+			case "L1", "L2":
+				b := bytes.Repeat([]byte("0123456789abcdef"), 2)
+				return append(b, []byte("tail-"+s+"!")...)
 			}
 			return []byte("salt-" + s)
 		}
